@@ -206,6 +206,56 @@ CHECKS = {
         technique="configuration x register-image enumeration + Hypothesis histories, single-vs-bulk differential",
         engine="siminv",
     ),
+    "C17": dict(
+        category="exploration",
+        text="For every setting with an encoder of ET (base/fw19/fw22), DT (single/three phase) and the register-addressed ES "
+             "settings (eco V1 over AA55, eco V2 over Modbus, switches), write_setting(id, v) runs against a simulated register file "
+             "with an arbitrary prior image: exactly one write, addressed to the setting, with exactly ceil(size/2) registers holding "
+             "the reference encoding (one-byte settings merged with the prior other half); no other register changes; read_setting "
+             "returns v. Value domains of 1/2-byte types are enumerated completely (quick: one instance per type; thorough: every "
+             "instance), wide types and groups get boundary/patterned/Hypothesis values; a sample runs end-to-end on all three framings.",
+        design_ref="DESIGN.md section 4, C17; D5",
+        note="The simulator is the reference model; all-ones words (read sentinel) are outside the domain (D5); decimals passed as the float nearest k/scale.",
+        technique="exhaustive value-domain enumeration + Hypothesis, model-based round trip against a simulated register file",
+        engine="siminv+refsensor",
+    ),
+    "C18": dict(
+        category="exploration",
+        text="Simulated inverters log every request after strict parsing. (R) Every read-only call (ids swept over all sensors/settings) "
+             "and Hypothesis-generated call sequences over model configurations with refused blocks, plus connect()/discover() "
+             "end-to-end, must transmit no function 06/16 and no AA55 02xx/03xx request. (S) Setters with arguments from wide integer "
+             "ranges around the valid intervals (export limit < 0, DoD outside 0..100, eco power/SoC outside 0..100, unknown ids) must "
+             "transmit no write and raise ValueError where documented; in-range control calls must write (non-vacuity).",
+        design_ref="DESIGN.md section 4, C18",
+        note="Write class as classified by the simulator and, for the entry points, independently from the raw bytes at the peer.",
+        technique="API x configuration enumeration + Hypothesis call sequences, request-log invariant on a simulated inverter",
+        engine="siminv",
+    ),
+    "C19": dict(
+        category="exploration",
+        text="Encoder level: encode_charge/encode_discharge for all power 1..100 x SoC 0..100 x {eco V1, schedule types ECO_MODE, "
+             "ECO_MODE_745} are decoded by the reference and by the library. API level: every mode of get_operation_modes(True) x every "
+             "prior content of the eco-mode groups (each schedule type on/off, unset, zeros, ones, 24/7 charge/discharge, garbage) x 7 "
+             "ET/ES firmware variants x a (power, SoC) grid + Hypothesis samples run against a simulated inverter: the getter must "
+             "return the mode, group 1 must decode to the requested power/SoC as an enabled 24/7 group, groups 2-4 must be off. Export "
+             "limits and DoD values are enumerated for ET/ES/DT.",
+        design_ref="DESIGN.md section 4, C19; D6",
+        note="ES vendor commands act on the simulator as transcribed from es.py (constants not independently known); eco V1 has no SoC register (D6).",
+        technique="exhaustive encoder grid + mode x prior-content enumeration + Hypothesis, model-based round trip",
+        engine="siminv+refsensor",
+    ),
+    "C20": dict(
+        category="exploration",
+        text="Two inverter objects (7 variants, UDP/TCP) on two simulators with different contents execute two call sequences under a "
+             "generated interleaving; the case runs three times (A alone, B alone, interleaved), each in a freshly imported library. "
+             "Requests per object (transaction id masked) and results snapshotted at return time must be identical between solo and "
+             "interleaved runs, and every returned value must keep its return-time snapshot until the end. All ordered variant pairs x "
+             "sequence styles are enumerated, sequences and merges are sampled by Hypothesis.",
+        design_ref="DESIGN.md section 4, C20",
+        note="Fresh import (sys.modules purge) as uncontaminated baseline; structural snapshots of returned objects.",
+        technique="differential solo-vs-interleaved execution over generated interleavings with fresh-import isolation",
+        engine="siminv",
+    ),
 }
 
 def main():
